@@ -471,7 +471,7 @@ def _arg_candidates(raw):
 
 # Ops that must not be shrunk: their arguments carry the implementation's own answer (the driver evaluates the property
 # on it), or their specification stream is only meaningful for generator-produced inputs (outputs of Build, ...).
-NO_SHRINK_OPS = {"keyring.verify_jsons", "keyring.direct_fetch", "keyring.perspective_fetch",
+NO_SHRINK_OPS = {"keyring.verify_jsons", "keyring.direct_fetch", "keyring.perspective_fetch", "keyring.perspective_history", "keyring.direct_history",
                  "event.roundtrip", "event.idprops", "event.iddiff", "event.build", "redact.build", "limits.build", "limits.build_fine",
                  "vertable.built"}
 
